@@ -525,6 +525,7 @@ func (s *stdioTransport) writeResponse(response interface{}, writer io.Writer) e
 		return fmt.Errorf("error writing response: %w", err)
 	}
 
+	verifYield("stdio.write.mid")
 	if _, err := writer.Write([]byte("\n")); err != nil {
 		return fmt.Errorf("error writing newline: %w", err)
 	}
